@@ -50,6 +50,11 @@ CHECKS = {
          'All pairs of duplicate-free series over 3 names and applied-patches sequences of up to 3 names (incl. longer, reordered, edited, duplicated), all goal arguments, threads 1/2, both verbosities, plus missing/unparseable/unreadable patch files at every position of the range after 0-2 applied patches: whenever the precondition of the statement holds the run must exit 1 with a message and leave the full snapshot (inodes, mtimes) identical.',
          'Unreadable is simulated by a directory in place of the patch file (the sandbox runs as root).',
          '5/C17'),
+ 'C18': ('wsweep', 'fault_enumeration',
+         'exhaustive single-fault enumeration at the libc boundary of the real binary (LD_PRELOAD): one run per mutating call k and errno, for sequential and (scheduler-serialised) parallel drivers',
+         'For ~45 (thorough ~90) workloads x backup {always,never} x 3 drivers, every mutating libc call of the fault-free run is failed once per applicable errno (EIO, ENOSPC, EACCES) and, for a subset, every write is cut short: the run must exit non-zero without crashing, name the failing path, and record no patch whose files are not all on disk; short writes must change nothing.',
+         'Single faults only; faults are injected in the dynamically linked binary\'s libc calls; the parallel driver runs under the serial schedules lowest-first and highest-first.',
+         '5/C18'),
  'C19': ('wsweep', 'model_checking',
          'bounded-exhaustive enumeration of escaping name spellings x header positions x kinds x strip levels x threads on the real binary inside a sentinel directory under the LD_PRELOAD monitor',
          '10 spellings (absolute, several shapes of "..", plain and quoted) x header position x file-patch kind (incl. failing hunks => rejects) x -p0..3 x threads: the sentinel tree outside the workspace must be identical (inodes, mtimes), the monitor must log no call outside the workspace, and a name that still escapes after stripping must be refused with exit 1.',
